@@ -25,6 +25,7 @@ import (
 	"strconv"
 	"strings"
 
+	"golang.org/x/tools/go/ast/astutil"
 	"golang.org/x/tools/go/packages"
 )
 
@@ -32,10 +33,10 @@ var instrumentedPkgs = []string{
 	"engine", "engine/pool", "engine/pubsub", "interpreter", "scope", "parser", "util", "stdlib", "config",
 }
 
-// files that stay untouched: the lexer runs as a real goroutine (DESIGN §3.1),
-// stdlib_gen.go is a generated table of Go standard library bindings.
+// files that stay untouched: stdlib_gen.go is a generated table of Go standard
+// library bindings.  (parser/lexer.go is instrumented too: the lexer goroutine is a
+// managed task and its token channel a simulated channel, see rewriteChannels.)
 var excludedFiles = map[string]bool{
-	"parser/lexer.go":      true,
 	"stdlib/stdlib_gen.go": true,
 }
 
@@ -60,7 +61,7 @@ type inst struct {
 }
 
 type stats struct {
-	Files, Probes, GoStmts, MapRanges, MapRangesSkipped, AccessProbes, ImportSwaps int
+	Files, Probes, GoStmts, MapRanges, MapRangesSkipped, AccessProbes, ImportSwaps, ChanOps, ChanOpsSkipped, StateVars int
 	Skipped                                                                        []string
 }
 
@@ -128,6 +129,33 @@ func main() {
 				os.Exit(2)
 			}
 			st.Files++
+		}
+	}
+	// one generated file per package registers every package-level variable with the
+	// simulator (snapshot at the first run, restore before every later run)
+	for _, p := range pkgs {
+		var names []string
+		sc := p.Types.Scope()
+		for _, n := range sc.Names() {
+			if v, ok := sc.Lookup(n).(*types.Var); ok && n != "_" {
+				names = append(names, v.Name())
+			}
+		}
+		if len(names) == 0 || len(p.CompiledGoFiles) == 0 {
+			continue
+		}
+		sort.Strings(names)
+		var b bytes.Buffer
+		fmt.Fprintf(&b, "package %s\n\nimport \"simrt\"\n\nfunc init() {\n", p.Types.Name())
+		for _, n := range names {
+			fmt.Fprintf(&b, "\tsimrt.RegisterVar(%q, &%s)\n", p.Types.Name()+"."+n, n)
+			st.StateVars++
+		}
+		b.WriteString("}\n")
+		dirOf := filepath.Dir(p.CompiledGoFiles[0])
+		if err := os.WriteFile(filepath.Join(dirOf, "verif_state.go"), b.Bytes(), 0644); err != nil {
+			fmt.Fprintln(os.Stderr, "instrument:", err)
+			os.Exit(2)
 		}
 	}
 	// go.mod of the copy: require the simrt module
@@ -254,7 +282,136 @@ func (in *inst) run() {
 			x.Body = in.list(x.Body, false, x.Pos())
 		}
 	}
+	in.rewriteChannels()
 	in.swapImports()
+}
+
+// rewriteChannels redirects channel operations to the simulator: `ch <- v`,
+// `<-ch` (one and two value form), `for x := range ch` and `close(ch)`.
+func (in *inst) rewriteChannels() {
+	chanElem := func(e ast.Expr) (types.Type, bool) {
+		tv, ok := in.info.Types[e]
+		if !ok || tv.Type == nil {
+			return nil, false
+		}
+		ct, ok := tv.Type.Underlying().(*types.Chan)
+		if !ok {
+			return nil, false
+		}
+		return ct.Elem(), true
+	}
+	typeExpr := func(t types.Type) ast.Expr {
+		name, ok := in.typeName(t)
+		if !ok {
+			return nil
+		}
+		e, err := parseExpr(name)
+		if err != nil {
+			return nil
+		}
+		return e
+	}
+	// recvClosure builds func() (T, bool) { x, ok := simrt.ChanRecv(ch); if x == nil { var z T; return z, ok }; return x.(T), ok }
+	recvClosure := func(ch ast.Expr, t ast.Expr, two bool) ast.Expr {
+		results := []*ast.Field{{Type: t}}
+		retZero := []ast.Expr{ast.NewIdent("_vz")}
+		retVal := []ast.Expr{&ast.TypeAssertExpr{X: ast.NewIdent("_vx"), Type: t}}
+		if two {
+			results = append(results, &ast.Field{Type: ast.NewIdent("bool")})
+			retZero = append(retZero, ast.NewIdent("_vok"))
+			retVal = append(retVal, ast.NewIdent("_vok"))
+		}
+		body := []ast.Stmt{
+			&ast.AssignStmt{Lhs: []ast.Expr{ast.NewIdent("_vx"), ast.NewIdent("_vok")}, Tok: token.DEFINE,
+				Rhs: []ast.Expr{&ast.CallExpr{Fun: sel("simrt", "ChanRecv"), Args: []ast.Expr{ch}}}},
+			&ast.AssignStmt{Lhs: []ast.Expr{ast.NewIdent("_")}, Tok: token.ASSIGN, Rhs: []ast.Expr{ast.NewIdent("_vok")}},
+			&ast.IfStmt{Cond: &ast.BinaryExpr{X: ast.NewIdent("_vx"), Op: token.EQL, Y: ast.NewIdent("nil")},
+				Body: &ast.BlockStmt{List: []ast.Stmt{
+					&ast.DeclStmt{Decl: &ast.GenDecl{Tok: token.VAR, Specs: []ast.Spec{&ast.ValueSpec{Names: []*ast.Ident{ast.NewIdent("_vz")}, Type: t}}}},
+					&ast.ReturnStmt{Results: retZero}}}},
+			&ast.ReturnStmt{Results: retVal},
+		}
+		return &ast.CallExpr{Fun: &ast.FuncLit{Type: &ast.FuncType{Params: &ast.FieldList{}, Results: &ast.FieldList{List: results}},
+			Body: &ast.BlockStmt{List: body}}}
+	}
+	twoValueRecv := map[*ast.UnaryExpr]bool{}
+	ast.Inspect(in.file, func(n ast.Node) bool {
+		switch x := n.(type) {
+		case *ast.AssignStmt:
+			if len(x.Lhs) == 2 && len(x.Rhs) == 1 {
+				if u, ok := x.Rhs[0].(*ast.UnaryExpr); ok && u.Op == token.ARROW {
+					twoValueRecv[u] = true
+				}
+			}
+		case *ast.ValueSpec:
+			if len(x.Names) == 2 && len(x.Values) == 1 {
+				if u, ok := x.Values[0].(*ast.UnaryExpr); ok && u.Op == token.ARROW {
+					twoValueRecv[u] = true
+				}
+			}
+		}
+		return true
+	})
+	astutil.Apply(in.file, nil, func(c *astutil.Cursor) bool {
+		switch x := c.Node().(type) {
+		case *ast.SendStmt:
+			if _, ok := chanElem(x.Chan); ok {
+				in.stats.ChanOps++
+				c.Replace(&ast.ExprStmt{X: &ast.CallExpr{Fun: sel("simrt", "ChanSend"), Args: []ast.Expr{x.Chan, x.Value}}})
+			}
+		case *ast.UnaryExpr:
+			if x.Op == token.ARROW {
+				if et, ok := chanElem(x.X); ok {
+					if t := typeExpr(et); t != nil {
+						in.stats.ChanOps++
+						c.Replace(recvClosure(x.X, t, twoValueRecv[x]))
+					} else {
+						in.stats.ChanOpsSkipped++
+					}
+				}
+			}
+		case *ast.CallExpr:
+			if id, ok := x.Fun.(*ast.Ident); ok && id.Name == "close" && len(x.Args) == 1 {
+				if _, isB := in.info.Uses[id].(*types.Builtin); isB {
+					if _, ok := chanElem(x.Args[0]); ok {
+						in.stats.ChanOps++
+						x.Fun = sel("simrt", "ChanClose")
+					}
+				}
+			}
+		case *ast.RangeStmt:
+			et, ok := chanElem(x.X)
+			if !ok {
+				return true
+			}
+			t := typeExpr(et)
+			if _, labelled := c.Parent().(*ast.LabeledStmt); labelled || t == nil {
+				in.stats.ChanOpsSkipped++
+				return true
+			}
+			in.stats.ChanOps++
+			cv := in.tmp("c")
+			xv, okv := in.tmp("x"), in.tmp("ok")
+			head := []ast.Stmt{
+				&ast.AssignStmt{Lhs: []ast.Expr{ast.NewIdent(xv), ast.NewIdent(okv)}, Tok: token.DEFINE, Rhs: []ast.Expr{recvClosure(ast.NewIdent(cv), t, true)}},
+				&ast.AssignStmt{Lhs: []ast.Expr{ast.NewIdent("_")}, Tok: token.ASSIGN, Rhs: []ast.Expr{ast.NewIdent(xv)}},
+				&ast.IfStmt{Cond: &ast.UnaryExpr{Op: token.NOT, X: ast.NewIdent(okv)}, Body: &ast.BlockStmt{List: []ast.Stmt{&ast.BranchStmt{Tok: token.BREAK}}}},
+			}
+			if x.Key != nil {
+				if id, isID := x.Key.(*ast.Ident); !isID || id.Name != "_" {
+					head = append(head, &ast.AssignStmt{Lhs: []ast.Expr{x.Key}, Tok: x.Tok, Rhs: []ast.Expr{ast.NewIdent(xv)}})
+					if x.Tok == token.DEFINE {
+						head = append(head, &ast.AssignStmt{Lhs: []ast.Expr{ast.NewIdent("_")}, Tok: token.ASSIGN, Rhs: []ast.Expr{x.Key}})
+					}
+				}
+			}
+			loop := &ast.ForStmt{Body: &ast.BlockStmt{List: append(head, x.Body)}}
+			c.Replace(&ast.BlockStmt{List: []ast.Stmt{
+				&ast.AssignStmt{Lhs: []ast.Expr{ast.NewIdent(cv)}, Tok: token.DEFINE, Rhs: []ast.Expr{x.X}},
+				loop}})
+		}
+		return true
+	})
 }
 
 func (in *inst) site(pos token.Pos) int {
